@@ -18,6 +18,11 @@ func (e *fnEnc) stdlibModel(c *blockCtx, in ssa.Instruction, name string, args [
 		case SStr, SAStr:
 			return []Term{e.strCompare(a, b)}, true
 		}
+	case "strconv.Itoa":
+		// a constant argument: the decimal numeral is computed here
+		if bi, ok := e.constOfTerm(args[0]); ok && !e.strAbstract {
+			return []Term{e.strLit(bi.String())}, true
+		}
 	case "path/filepath.Join", "path.Join":
 		// Join(a, b): an uninterpreted function of its two elements
 		if len(cc.Args) == 1 {
